@@ -19,13 +19,13 @@ def run(ctx):
     ctx.cov['spelling_sensitive_sites'] = [s['site'] for s in sensitive]
     # ---- programs: canonical spelling vs respellings ----------------------
     texts = []
-    progs = sqlprog.programs(ctx, 300 if quick else 8000, 'C11_progs', seed=ctx.seed * 3 + 1)
+    progs = sqlprog.programs(ctx, 300 if quick else 3000, 'C11_progs', seed=ctx.seed * 3 + 1)
     for p in progs:
         sp = sqlprog.spell(p, rng, gaps='blank', canonical=True)
         if sqlprog.lexes_as_intended(sp):
             texts.append(('plain', sp.text))
     checked_pools()
-    scripts = splitfam.emit_scripts(ctx, PROC_ALL + ['caseexpr', 'txbegin'], 5, 'C11_proc', simulate=500 if quick else 10000,
+    scripts = splitfam.emit_scripts(ctx, PROC_ALL + ['caseexpr', 'txbegin'], 5, 'C11_proc', simulate=500 if quick else 5000,
                                     maxlen=36, minlen=6, seed=ctx.seed * 5 + 2)
     cover = splitfam.cover_scripts(ctx, ['proc', 'if', 'whiledo', 'nestedbegin', 'loop', 'caseexpr_body'], 5, 'C11_cover')
     seen = set()
